@@ -1,5 +1,6 @@
 """C11 - decoding device data always terminates, whatever the bytes."""
 import os
+import signal
 import sys
 
 from vf.props import c04
@@ -26,6 +27,19 @@ class BudgetExceeded(BaseException):
     pass
 
 
+class CpuExceeded(BudgetExceeded):
+    pass
+
+
+def cpu_limit(nbytes):
+    """seconds of user CPU time for ONE decode: 1 s + 2 ms per byte (the whole line budget, traced, costs about 1 us per line = 1 ms per byte)"""
+    return 1.0 + 0.002 * nbytes
+
+
+def _on_cpu(signum, frame):
+    raise CpuExceeded()
+
+
 def bounds(tier):
     return {"pair_span": 12 if tier == "quick" else 24}
 
@@ -33,7 +47,7 @@ def bounds(tier):
 _PRE = [None]
 
 
-def guarded(fn, budget):
+def guarded(fn, budget, nbytes=0):
     """run fn under a line budget; returns (exceeded?, lines used)"""
     pre = _PRE[0] or (os.path.join(os.environ.get("VF_REPO", "/repo"), "pyscsi") + "/")
     _PRE[0] = pre
@@ -50,16 +64,23 @@ def guarded(fn, budget):
         if event == "call" and frame.f_code.co_filename.startswith(pre):
             return local
         return None
+    # work done below the Python line level (regular expressions, C loops that poll for signals) is bounded by user CPU time
+    old = signal.signal(signal.SIGVTALRM, _on_cpu)
+    signal.setitimer(signal.ITIMER_VIRTUAL, cpu_limit(nbytes))
     sys.settrace(glob)
     try:
         fn()
         return False, n[0]
+    except CpuExceeded:
+        return "cpu", n[0]
     except BudgetExceeded:
         return True, n[0]
     except Exception:      # noqa: BLE001 - raising is a legitimate answer to garbage
         return False, n[0]
     finally:
         sys.settrace(None)
+        signal.setitimer(signal.ITIMER_VIRTUAL, 0)
+        signal.signal(signal.SIGVTALRM, old)
 
 
 _CLS = {}
@@ -143,6 +164,21 @@ def base_buffers(name):
             if dta not in seen:
                 seen.add(dta)
                 out.append(("wellformed", dta))
+    # text-bearing fields: long runs of printable characters (then every single-byte corruption of them, which includes a NUL,
+    # a blank and a non-ASCII byte at every position): decoders that match or strip text must stay proportional
+    TXT = bytes(0x21 + (i * 7) % 0x5E for i in range(60))
+    PAD = b"  " + TXT[:54] + b"    "
+    if name == "inquiry_vpd":
+        for t in (TXT, PAD, TXT[:28] + bytes(4), b"A" * 60):
+            out.append(("wellformed", bytes([0x00, 0x80, 0, len(t)]) + t))
+        for dtype, cs in ((1, 2), (8, 3), (0, 2)):
+            for t in (TXT, PAD):
+                out.append(("wellformed", bytes([0x00, 0x83, 0, len(t) + 4, cs, dtype, 0, len(t)]) + t))
+        out.append(("wellformed", bytes([0x00, 0x85, 0, 68, 0x22, 0, 0, 64]) + TXT + b"\0" * 4))
+    if name in ("designator1", "designator8", "designator0"):
+        out += [("wellformed", TXT), ("wellformed", PAD), ("wellformed", TXT[:32] + bytes(4))]
+    if name == "inquiry_std":
+        out.append(("wellformed", bytes([0, 0, 6, 2, 91, 0, 0, 2]) + TXT + PAD[:28]))
     if name.startswith("readcd"):
         out.append(("wellformed", bytes(range(256)) * 12))
     if name == "sense":
@@ -174,9 +210,12 @@ def run_case(case, obs=None):
     buf = bytes.fromhex(hexbuf)
     fn = decoders()[name]
     budget = 2000 + 1000 * len(buf)
-    over, lines = guarded(lambda: fn(bytearray(buf)), budget)
+    over, lines = guarded(lambda: fn(bytearray(buf)), budget, len(buf))
     if obs is not None:
         obs.append(lines)
+    if over == "cpu":
+        return [("%s/cpu_time_exceeded" % name.split("/")[0], "%s: decoding %d bytes (%s%s) was still running after %.1f s of CPU time (%d source lines): does not terminate in proportional work"
+                 % (name, len(buf), buf[:40].hex(), "..." if len(buf) > 40 else "", cpu_limit(len(buf)), lines))]
     if over:
         return [("%s/budget_exceeded" % name.split("/")[0], "%s: decoding %d bytes (%s%s) used more than %d source lines (budget 2000+1000/byte): does not terminate in proportional work"
                  % (name, len(buf), buf[:32].hex(), "..." if len(buf) > 32 else "", budget))]
@@ -193,24 +232,43 @@ def run_partition(part, tier, seed):
     fn = decoders()[name]
     span = bounds(tier)["pair_span"]
     maxlines = 0
+    ncpu = [0]
 
     def do(buf, nontrivial):
         nonlocal maxlines
         budget = 2000 + 1000 * len(buf)
-        over, lines = guarded(lambda: fn(bytearray(buf)), budget)
+        over, lines = guarded(lambda: fn(bytearray(buf)), budget, len(buf))
         maxlines = max(maxlines, lines if not over else 0)
         acc.evaluations += 1
         h = hash((name, buf))
         if nontrivial:
             acc.nontrivial.add(h)
         acc.outcomes.add(lines // 50)
-        if over:
+        if over == "cpu":
+            ncpu[0] += 1
+            acc.violation("%s/cpu_time_exceeded" % name.split("/")[0],
+                          "%s: decoding %d bytes (%s%s) was still running after %.1f s of CPU time: does not terminate in proportional work"
+                          % (name, len(buf), buf[:40].hex(), "..." if len(buf) > 40 else "", cpu_limit(len(buf))), [name, buf.hex()])
+            if ncpu[0] >= 3:
+                raise StopIteration
+        elif over:
             acc.violation("%s/budget_exceeded" % name.split("/")[0],
                           "%s: decoding %d bytes (%s%s) used more than %d source lines: does not terminate in proportional work"
                           % (name, len(buf), buf[:32].hex(), "..." if len(buf) > 32 else "", budget), [name, buf.hex()])
         if len(acc.samples) < 4 and nontrivial and (h & 0x3FF) == (seed & 0x3FF):
             acc.samples.append((h & 0xFFFFFFFF, [name, buf[:64].hex(), "lines=%d" % lines]))
 
+    try:
+        _explore(name, chunk, nchunks, span, do)
+    except StopIteration:
+        acc.caps.append("%s: stopped after 3 decodes that exceeded the CPU limit (each is reported)" % name)
+    acc.extra["max_lines_within_budget"] = ["%s:%d" % (name, maxlines)]
+    if not acc.samples:
+        acc.samples.append((0, [name, "(see rule)"]))
+    return acc
+
+
+def _explore(name, chunk, nchunks, span, do):
     for bi, (kind, base) in enumerate(base_buffers(name)):
         if bi % nchunks != chunk:
             continue
@@ -238,7 +296,3 @@ def run_partition(part, tier, seed):
                             do(bytes(m), True)
             for t in range(n):
                 do(base[:t], True)
-    acc.extra["max_lines_within_budget"] = ["%s:%d" % (name, maxlines)]
-    if not acc.samples:
-        acc.samples.append((0, [name, "(see rule)"]))
-    return acc
